@@ -67,7 +67,8 @@ class Ctx:
             inl = inline.inline_helpers(f)
             if inl:
                 info = dict(info, inlined_helpers=inl)
-            from . import webs
+            from . import webs, mirrors
+            info = dict(info, mirror_locals=mirrors.fold_mirrors(f))
             info = dict(info, web_splits=webs.split_webs(f))
             self.fact_info[config] = info
             m = Model(f)
